@@ -26,6 +26,7 @@ const (
 	ChunkSmall                    // 1..16
 	ChunkByte                     // 1
 	ChunkMixed                    // drawn per delivery from the above
+	ChunkHuge                     // up to 65536
 )
 
 // pipe is one direction of a connection.
@@ -921,6 +922,8 @@ func (n *Net) chunk(p *pipe, avail int) int {
 		sz = n.k.S.Range(1, 16)
 	case ChunkByte:
 		sz = 1
+	case ChunkHuge:
+		sz = 65536
 	}
 	if sz > avail {
 		sz = avail
